@@ -17,9 +17,11 @@ ASSUMPTIONS = ['bounded-progress restatement: B = (2 + ceil(max startsecs / 5) +
                'for stops', 'TICK and forced-state publications are not dropped (only real process events are)',
                'documented exception honoured: a wait_exit program that is running and does not exit']
 FLOORS = {'quick': {'job_flag_observations': 1500, 'given_up_jobs': 150, 'forced_state_views_checked': 100,
-                    'dropped_process_publications': 500, 'injected_target_restarts': 40},
+                    'dropped_process_publications': 500, 'injected_target_restarts': 40,
+                    'numprocs_requests_served': 150},
           'thorough': {'job_flag_observations': 40000, 'given_up_jobs': 4000, 'forced_state_views_checked': 2500,
-                       'dropped_process_publications': 12000, 'injected_target_restarts': 800}}
+                       'dropped_process_publications': 12000, 'injected_target_restarts': 800,
+                       'numprocs_requests_served': 2500}}
 COUNT = {'quick': 400, 'thorough': 10000}
 BUDGET_S = {'quick': 55, 'thorough': 540}
 
